@@ -360,3 +360,28 @@ def get_association_by_fields_and_assets(self, first_field, second_field, first_
                 first_asset.is_subasset_of(assoc.right_field.asset):
             return assoc
     return None
+
+
+# ----------------------------------------------------------------------------------------------- T21
+# C05: "an asset lists an association exactly when that association lists the asset ... a removed association
+# leaves no trace": every asset of either field loses ONE registration per field it sits in (an asset on both
+# sides was registered twice by add_association), the association leaves the list and its type bucket, an empty
+# bucket is deleted; an association that is not in the model raises before anything changes.
+def remove_association(self, association):
+    if association not in self.associations:
+        raise LookupError('not part of the model')
+    left_field_name, right_field_name = self.get_association_field_names(association)
+    for asset in getattr(association, left_field_name):
+        assocs = list(asset.associations)
+        assocs.remove(association)
+        asset.associations = assocs
+    for asset in getattr(association, right_field_name):
+        if association in asset.associations:
+            assocs = list(asset.associations)
+            assocs.remove(association)
+            asset.associations = assocs
+    self.associations.remove(association)
+    association_type = association.__class__.__name__
+    self._type_to_association[association_type].remove(association)
+    if len(self._type_to_association[association_type]) == 0:
+        del self._type_to_association[association_type]
